@@ -822,7 +822,13 @@ fn c09_blackbox(ctx: &Ctx) -> Stats {
                 st.bump("blackbox_games_where_the_rule_changes_the_score");
             }
             st.sample_tagged("blackbox", || case.clone());
-            let r = eng.command("ucinewgame", Duration::from_secs(20)).and_then(|_| eng.command(&cmd, Duration::from_secs(20))).and_then(|_| eng.command("go depth 1", Duration::from_secs(60)));
+            // every other game: the three commands back to back, no isready in between
+            let r = if done % 2 == 1 {
+                st.bump("blackbox_games_sent_without_isready_in_between");
+                eng.send("ucinewgame").and_then(|_| eng.send(&cmd)).and_then(|_| eng.command("go depth 1", Duration::from_secs(60)))
+            } else {
+                eng.command("ucinewgame", Duration::from_secs(20)).and_then(|_| eng.command(&cmd, Duration::from_secs(20))).and_then(|_| eng.command("go depth 1", Duration::from_secs(60)))
+            };
             match r {
                 Ok(lines) => {
                     let score = lines.iter().find_map(|l| {
@@ -981,6 +987,50 @@ fn c09_insearch_case(g: &Game, earlier: Option<(&str, u8)>, depth: u8, node_limi
 }
 
 
+
+/// An "offset perpetual": a sliding piece checks from t, the king steps aside, the piece retreats
+/// along the same line to ANOTHER square than it came from, the king steps back, and the same check
+/// is given again — so the position after the check is on record twice although the positions before
+/// it differ. Seven plies from a sparse random position; None when the sample has no such line.
+pub fn perpetual_game(rng: &mut Rng) -> Option<Game> {
+    for _ in 0..400 {
+        let men = 3 + rng.below(5) as i64;
+        let start = gen::g_small(rng, men);
+        let p0 = start.clone();
+        let legal0 = p0.legal_moves();
+        let checks: Vec<Mv> = legal0.iter().filter(|m| m.promo == 0 && !p0.is_capture(m) && matches!(oracle::kind(p0.sq[m.from as usize]), oracle::R | oracle::Q | oracle::B) && p0.gives_check(m)).cloned().collect();
+        if checks.is_empty() {
+            continue;
+        }
+        let m = *rng.pick(&checks);
+        let q = p0.make(&m);
+        let king_from = q.king_sq(q.stm)?;
+        for r in q.legal_moves().into_iter().filter(|r| r.from == king_from && !q.is_capture(r)) {
+            let p1 = q.make(&r);
+            // retreat along the line of the check to another square than the original one
+            for m2 in p1.legal_moves().into_iter().filter(|x| x.from == m.to && x.to != m.from && !p1.is_capture(x) && x.promo == 0) {
+                let p2 = p1.make(&m2);
+                if p2.in_check() {
+                    continue;
+                }
+                let Some(r2) = p2.legal_moves().into_iter().find(|x| x.from == r.to && x.to == r.from && !p2.is_capture(x)) else { continue };
+                let p0b = p2.make(&r2);
+                let Some(m3) = p0b.legal_moves().into_iter().find(|x| x.from == m2.to && x.to == m.to) else { continue };
+                let qb = p0b.make(&m3);
+                if qb.key() != q.key() {
+                    continue;
+                }
+                let p1b = qb.make(&r);
+                let p2b = p1b.make(&m2);
+                let moves = vec![m, r, m2, r2, m3, r, m2];
+                let positions = vec![p0.clone(), q.clone(), p1.clone(), p2.clone(), p0b, qb, p1b, p2b];
+                return Some(Game { start, startpos: false, moves, positions });
+            }
+        }
+    }
+    None
+}
+
 /// A game of the same length that ends in the same position as `g` but took another road: it starts
 /// from the position `g` had after four plies, follows `g` to its end and then both sides move a
 /// piece out and back. Same ply count, same final position, other occurrence counts.
@@ -1033,7 +1083,19 @@ fn c09_insearch(ctx: &Ctx) -> Stats {
             if i >= 6 && ctx.past(0.8) {
                 break;
             }
-            let g = if i % 8 == 7 { far_repeat_game(&mut rng).unwrap_or_else(|| repeat_game(&mut rng)) } else { repeat_game(&mut rng) };
+            let g = if i % 8 == 7 {
+                far_repeat_game(&mut rng).unwrap_or_else(|| repeat_game(&mut rng))
+            } else if i % 8 == 3 {
+                match perpetual_game(&mut rng) {
+                    Some(g) => {
+                        st.bump("insearch_offset_perpetual_check_histories");
+                        g
+                    }
+                    None => repeat_game(&mut rng),
+                }
+            } else {
+                repeat_game(&mut rng)
+            };
             if g.current().legal_moves().is_empty() {
                 continue;
             }
